@@ -68,8 +68,9 @@ ServerVerdict(req, cfg) ==
 
 \* the status a rejecting callback produces: its own, or 500 for a plain error (rejectStatus 0) and for a
 \* rejection that names headers / a reason but no status (rejectStatus -1, a negative number in the logs)
-RejectStatusOf(cfg) == IF cfg.rejectStatus \in {0, 0 - 1} THEN 500 ELSE cfg.rejectStatus
-RejectBringsHeader(cfg) == cfg.rejectStatus # 0
+\* (rejectStatus -2: a plain error that wraps one of the library's own handshake errors)
+RejectStatusOf(cfg) == IF cfg.rejectStatus \in {0, 0 - 1, 0 - 2} THEN 500 ELSE cfg.rejectStatus
+RejectBringsHeader(cfg) == cfg.rejectStatus \notin {0, 0 - 2}
 
 \* statuses the error response may carry
 AllowedStatus(req, cfg) ==
@@ -106,5 +107,6 @@ ClientVerdict(resp) ==
        /\ resp.protocol \in {"none", "requested"}
        /\ resp.exts \in {"none", "offered", "offeredparams", "offered2"}
        /\ ~resp.cut
+       /\ ~resp.veto           \* no application callback (Dialer.OnHeader) refused one of the other headers
     THEN "ok" ELSE "fail"
 =============================================================================
